@@ -161,3 +161,35 @@ var ErrInjected = errors.New("verif: injected failure")
 func Massive(ctx context.Context) gtree.Option { return gtree.WithMassive(ctx) }
 
 var _ = io.EOF
+
+func OutputRootAlias(root *gtree.Node, opts ...gtree.Option) Outcome {
+	var buf bytes.Buffer
+	o := Guard(func() error { return gtree.OutputProgrammably(&buf, root, opts...) })
+	o.Out = buf.String()
+	return o
+}
+
+func WalkRootAlias(root *gtree.Node, opts ...gtree.Option) ([]WalkRec, Outcome) {
+	var recs []WalkRec
+	o := Guard(func() error {
+		return gtree.WalkProgrammably(root, func(wn *gtree.WalkerNode) error {
+			recs = append(recs, recOf(wn))
+			return nil
+		}, opts...)
+	})
+	return recs, o
+}
+
+func WalkIterRootAlias(root *gtree.Node, opts ...gtree.Option) ([]WalkRec, Outcome) {
+	var recs []WalkRec
+	o := Guard(func() error {
+		for wn, err := range gtree.WalkIterProgrammably(root, opts...) {
+			if err != nil {
+				return err
+			}
+			recs = append(recs, recOf(wn))
+		}
+		return nil
+	})
+	return recs, o
+}
